@@ -255,6 +255,17 @@ func (u *Unit) contractCall(st *State, instr ssa.Instruction, fs *FuncSpec, name
 			env.names[pnames[i]] = SV{V: a, Typ: pt}
 		}
 	}
+	if fs.Kind == "func" && len(fs.Params) == 0 {
+		if cfn := u.eng.funcByName(u.pkg, fs.Name); cfn != nil {
+			for oldN, newN := range u.aliasesOf(cfn) {
+				if sv, ok := env.names[newN]; ok {
+					if _, taken := env.names[oldN]; !taken {
+						env.names[oldN] = sv
+					}
+				}
+			}
+		}
+	}
 	for _, c := range fs.Requires {
 		if sv, ok := u.exclusiveExpr(env, c); ok {
 			ref := u.lower(st, sv.V, sv.Typ)
